@@ -564,6 +564,38 @@ pub fn drive_histories(out: &mut dyn std::io::Write, seed: u64, thorough: bool, 
             }
         }
     }
+    // long histories: hundreds of small requests on one instance (anything counted per call), with requests equal to /
+    // one more than the bytes left in the current block, no-op seeks to the current position, and position queries in between
+    for (vi, variant) in ["ChaCha12", "Ietf", "XChaCha8"].iter().enumerate() {
+        if !thorough && vi != (seed % 3) as usize {
+            continue;
+        }
+        let key = rng.bytes(32);
+        let nonce = rng.bytes(nonce_len(variant));
+        let mut ep = Episode::start(out, variant, &key, &nonce, "long", with_internals);
+        let mut posn: u128 = 0;
+        for i in 0..(if thorough { 700 } else { 330 }) {
+            let left = (64 - (posn % 64)) as usize;
+            let n = match i % 7 {
+                0 => left,
+                1 => left + 1,
+                2 => 0,
+                3 => 1 + rng.below(70) as usize,
+                4 => 256 - (posn % 256) as usize,
+                5 => 3,
+                _ => left.saturating_sub(1),
+            };
+            let d = pattern(&mut rng, n);
+            ep.apply(out, &d);
+            posn += n as u128;
+            if i % 11 == 3 {
+                ep.seek(out, "u64", false, posn);
+            }
+            if i % 13 == 5 {
+                ep.pos(out, "u32");
+            }
+        }
+    }
     // the repository's own test histories and their mirror images
     let key = [50u8; 32];
     let mut ep = Episode::start(out, "Ietf", &key, &[44u8; 12], "seek_consistency", with_internals);
